@@ -59,6 +59,15 @@ CHECKS = {
         "note": ENGINE_NOTE + " Index.List() hides duplicate entries of one document.",
         "technique": "TLA+ invariant IndexListingOK and reference model evaluated by TLC on recorded traces (code->spec trace validation)",
     },
+    "C17": {
+        "level": "model_checking",
+        "text": "Every call kind of the driver API is made with nested bson.D/M/A/binary arguments and document-valued _ids; arguments must equal a deep copy afterwards; "
+                "then every container position of every argument and of every value handed back (decoded documents, raw bytes, ids, distinct values, index specs) is "
+                "overwritten in place; reads, argument overwrites and result overwrites are recorded as events with the complete state dump (BSON bytes of every "
+                "document incl. the change log, index definitions and listings) before and after, which TLC requires to be identical (stuttering steps of the spec).",
+        "note": ENGINE_NOTE + " The grid of call kinds is enumerated in the harness; ListSpecifications (documented as unimplemented) is not called.",
+        "technique": "caller mutations as stuttering steps of the TLA+ model; TLC checks dump equality on mutate-and-redump traces recorded from the real API",
+    },
     "C19": {
         "level": "model_checking",
         "text": "States with 0-2 TTL indexes (incl. expireAfterSeconds 0, a partial TTL index) next to other indexes are built through the driver API over a pool of 20 "
